@@ -1,4 +1,4 @@
-import GeffProofs.KVConcurrent
+import GeffProofs.KVCleanup
 import GeffProofs.WriteOrderSpec
 /-! # C05 — a failed or interrupted write never leaves a wrong graph that looks valid
 
@@ -105,6 +105,33 @@ theorem C05_every_crash_point_api (d : Docs) (kind : Kind) (f : Fmt) (g : G) (ov
     recognised f kv = false ∨ (w.val = .ok () ∧ kv = run kv₀ w.ops) ∨ kv = kv₀ :=
   apiWrite_crash d kind f g overwrite validate kv₀ hpre k
 
+/-- the same for `geff.write` (every backend) and the converters -/
+theorem C05_every_failure_state_api (d : Docs) (kind : Kind) (f : Fmt) (g : G) (overwrite validate : Bool)
+    (kv₀ : KV) (hpre : PreOK kind f overwrite kv₀) (T : List Op)
+    (hT : CrashSeq (apiPhases d kind f g overwrite validate kv₀) T) :
+    let P := apiPhases d kind f g overwrite validate kv₀
+    recognised f (run kv₀ T) = false ∨
+      (P.committed = true ∧ geffView f (run kv₀ T) = geffView f (run kv₀ (P.D ++ P.W ++ P.C))) ∨
+      run kv₀ T = kv₀ :=
+  apiWrite_crashSeq d kind f g overwrite validate kv₀ hpre hT
+
+/-- **C05, clean-up** — when structure validation rejects the committed store (validation on,
+`g.valid = false`), for every graph and every store the write may start on (without geff:
+`CleanS`; or holding one that is being overwritten: `HoldsGeff`), with any foreign members:
+the call ends with `ValueError`, **no geff-controlled key is left** (nodes and edges removed), **the
+geff attribute is gone**, and **every foreign member is still there byte for byte and in place**.
+(`ForeignVisible` — the foreign members are members zarr sees in the written format — is needed only
+for str/Path stores, where `delete_geff` removes the whole root when it looks empty.) -/
+theorem C05_cleanup (d : Docs) (kind : Kind) (f : Fmt) (g : G) (overwrite : Bool) (kv₀ : KV)
+    (hstart : CleanS f kv₀ ∨ (overwrite = true ∧ HoldsGeff f kv₀))
+    (hvis : kind = .path → ForeignVisible f kv₀)
+    (hcommit : (writeCommitted d kind f g overwrite kv₀).val = .ok ()) (hinv : g.valid = false) :
+    let r := writeArrays d kind f g overwrite true kv₀
+    r.val = .error .valueError ∧
+    ownedPart (run kv₀ r.ops) = [] ∧ geffAttrIn f (run kv₀ r.ops) = none ∧
+    foreignPart (run kv₀ r.ops) = foreignPart kv₀ :=
+  cleanup_spec d kind f g overwrite kv₀ hstart hvis hcommit hinv
+
 /-- the committed store really carries the new graph's metadata in the format being written, and
 `check_for_geff` sees it -/
 theorem C05_commit_visible (d : Docs) (kind : Kind) (f : Fmt) (g : G) (s : KV) (hs : FmtClean f s)
@@ -193,6 +220,11 @@ def exOld : KV :=
 example : recognised .v2 exOld = true := by decide +kernel
 example : checkForGeff .mem exOld = true := by decide +kernel
 example : (writeArrays exDocs .mem .v2 (exG "B" false) true true exOld).ops.length = 104 := by decide +kernel
+/-- the clean-up hypotheses are satisfiable: the store above holds a geff, its foreign array is visible -/
+example : HoldsGeff .v2 exOld :=
+  ⟨by decide +kernel, ⟨"Ameta", "{}", by decide +kernel⟩, fun _ => by decide +kernel⟩
+example : errOf (writeArrays exDocs .mem .v2 (exG "B" false) true true exOld).val = some .valueError := by
+  decide +kernel
 /-- crash in the delete phase: not recognised; crash at 0: the old store -/
 example : recognised .v2 (run exOld ((writeArrays exDocs .mem .v2 (exG "B" true) true true exOld).ops.take 3)) = false := by
   decide +kernel
